@@ -3,11 +3,12 @@ SPECIFICATION Spec
 CONSTANTS
   Clients = {"c1", "c2"}
   MaxReq = 2
-  JunkKinds = {"garbage"}
-  MaxJunk = 1
+  JunkKinds = {}
+  MaxJunk = 0
   MaxDup = 1
   MaxDrop = 1
   MaxClose = 0
+  Faults = {"DropQ", "DupQ", "ReplayQ", "DropR", "DupR"}
   StaleMode = "skip"
   KeyCheck = TRUE
   Timeout = TRUE
